@@ -100,6 +100,15 @@ CLAIMED["C17"] = dict(
          "restarts' is decided as independence from import-phase draws.",
     ref="DESIGN.md section 3 C17")
 
+CLAIMED["C13"] = dict(
+    technique="symbolic execution of the real OTFAD / IEE / BEE encryptors (addresses, ranges, keys, counters, image bytes "
+              "symbolic) against a block-level model of the decryption hardware; AES-CTR keystream and AES-XTS block "
+              "functions are native z3 uninterpreted functions (QF_UFBV congruence), key wrap an ideal invertible cipher, "
+              "CRC a bit-exact BV circuit",
+    note="Out of the claim: real AES; images longer than the bounds; alignments of the base inside its 1 KiB unit are "
+         "enumerated case parameters (3 in quick, all 64 in thorough); IEE CTR counter overflow is a recorded finding.",
+    ref="DESIGN.md section 3 C13")
+
 NOT_APPLICABLE = {
     "C18": "quantifies over OS-level crash points of a pickle file and over process schedules around a FileLock; the "
            "deciding code is pickle (C) / the file system / the scheduler - no SPSDK arithmetic or layout to encode; "
